@@ -195,6 +195,20 @@ def main():
     guard = re.search(r"impl\s+Drop\s+for\s+(\w+)", pr)
     guard_used = bool(guard and re.search(r"let\s+_\w*\s*=\s*%s\s*[\(\{]" % guard.group(1), pr))
     facts.append("Definition process_group_guard_present : bool := %s." % ("true" if guard_used else "false"))
+    # the guard kills with SIGKILL (a SIGTERM can be ignored) and nothing can disarm it
+    gname = guard.group(1) if guard else "ProcessGroupGuard"
+    dm = re.search(r"impl\s+Drop\s+for\s+%s\s*\{(.*?)\n\}" % gname, pr, re.S)
+    dbody = re.sub(r"\s+", "", dm.group(1)) if dm else ""
+    facts.append("Definition guard_kills_with_sigkill : bool := %s." %
+                 ("true" if ("signal::killpg(pgid,Signal::SIGKILL)" in dbody and "SIGTERM" not in dbody) else "false"))
+    disarm = (re.search(r"impl\s+%s\s*\{" % gname, pr) or re.search(r"mem::forget|ManuallyDrop", pr)
+              or re.search(r"\.0\s*=\s*None|\.0\.take\(\)", pr))
+    facts.append("Definition guard_never_disarmed : bool := %s." % ("true" if not disarm else "false"))
+    # evaluate() selects over the child's result, the kill timeout and the abort signal
+    em = re.search(r"async\s+fn\s+evaluate\b(.*?)\n    \}", pr, re.S)
+    ebody = re.sub(r"\s+", "", em.group(1)) if em else ""
+    facts.append("Definition evaluate_selects_result_timeout_abort : bool := %s." %
+                 ("true" if (ebody.count("tokio::select!") + ebody.count("select!{") >= 1 and "abort" in ebody and "timeout" in ebody.lower() and "child_result" in ebody) else "false"))
     facts.append("Definition stderr_logged_lossily : bool := %s." %
                  ("true" if (re.search(r"from_utf8_lossy", pr) and not re.search(r"String::from_utf8\([^)]*\)\s*\.unwrap\(\)", pr)) else "false"))
 
